@@ -311,7 +311,12 @@ class ElectronicControlUnit:
             next_wakeup = self.j1939_dll.async_job_thread(now)
 
             # check timer events
-            for event in self._timer_events:
+            # iterate over a copy: callbacks add and remove timers, and expired one-shot timers are
+            # removed below; mutating the list being iterated would skip the following timer
+            for event in list(self._timer_events):
+                if event not in self._timer_events:
+                    # removed by a callback earlier in this pass
+                    continue
                 if event['deadline'] > now:
                     if next_wakeup > event['deadline']:
                         next_wakeup = event['deadline']
@@ -326,8 +331,8 @@ class ElectronicControlUnit:
                         # recalc next wakeup
                         if next_wakeup > event['deadline']:
                             next_wakeup = event['deadline']
-                    else:
-                        # remove from list
+                    elif event in self._timer_events:
+                        # remove from list (unless the callback already removed itself)
                         self._timer_events.remove( event )
 
             time_to_sleep = next_wakeup - time.time()
